@@ -28,6 +28,10 @@ def run(ck):
     ck.clause("C01.2", "all peaks' segments go through the injected AlignmentSegmentConflictResolver")
     ck.clause("C01.3", "resolver visits every consecutive chain pair and writes back to the same slots")
     ck.clause("C01.4", "per-peak de-duplication by query label and by reference label, keeping the nearest")
+    ck.clause("C01.5", "second-pass label numbers refer to labels of the whole query (fragment offset = labels cut from the front; as C02.4/C02.5)")
+    from .c02 import fragments, numbering
+    fragments(ck, "C01.5")
+    numbering(ck, "C01.5")
     no_empty_rows(ck)
     resolver_used(ck)
     pairwise_pass(ck, "C01.3")
@@ -40,6 +44,18 @@ def run(ck):
 
 
 # ---------------------------------------------------------------------------------------------------------- C01.1
+def non_empty_filter(ck, rule):
+    """the result of the parallel map is filtered on the truthiness of the row's alignedPairs"""
+    ctx = ck.ctx
+    fn, call, mapname, worker_lambda, worker = parallel_map_site(ctx)
+    rets = [pa for pa in explore(ck, fn, unroll=(0, 1)) if pa.outcome == "return"]
+    if len(rets) != 1:
+        raise AnalysisError(f"{fn.where}: execute expected to have a single return")
+    v = rets[0].value
+    w = where(fn, rets[0].node)
+    return _judge_filter(ck, rule, fn, v, w)
+
+
 def no_empty_rows(ck):
     ctx = ck.ctx
     p = ctx.p
@@ -49,6 +65,11 @@ def no_empty_rows(ck):
         raise AnalysisError(f"{fn.where}: execute expected to have a single return")
     v = rets[0].value
     w = where(fn, rets[0].node)
+    _judge_filter(ck, "C01.1", fn, v, w)
+    _written_rows_sources(ck, fn)
+
+
+def _judge_filter(ck, rule, fn, v, w):
     ok = None
     if v[0] == "comp" and v[1] == "list" and len(v[3]) == 1 and v[2][0] == "bv":
         it, ifs = v[3][0]
@@ -78,9 +99,15 @@ def no_empty_rows(ck):
             raise AnalysisError(f"{w}: filtering idiom of execute not recognised: {T.show(v)[:160]}")
     else:
         raise AnalysisError(f"{w}: value returned by execute not recognised: {T.show(v)[:160]}")
-    ck.judge(ok, "C01.1", short(fn) + ":non-empty-filter", w,
+    ck.judge(ok, rule, short(fn) + ":non-empty-filter", w,
              "rows returned by the parallel map are kept only if they have aligned pairs",
              found="conditions: " + ", ".join(found), required="a condition on the truthiness of <row>.alignedPairs")
+    return ok
+
+
+def _written_rows_sources(ck, fn):
+    ctx = ck.ctx
+    p = ctx.p
     # every written list derives from the filtered execute() result
     base_exec = fn.qualname
     allowed_tail = ("_WorkflowCoordinator.execute", "getSecondPassAlignmentRows",
@@ -212,6 +239,8 @@ def resolver_used(ck):
 
 # ---------------------------------------------------------------------------------------------------------- C01.3
 def pairwise_pass(ck, rule):
+    """The resolver walks {(i, i+1)} over the whole chain; in each step the conflict pair is built from the chain's
+    *current* contents and both results are written back to the pair's own slots."""
     ctx = ck.ctx
     p = ctx.p
     cls = p.find_class("AlignmentSegmentConflictResolver")
@@ -221,80 +250,81 @@ def pairwise_pass(ck, rule):
             fn = m
     if fn is None:
         raise AnalysisError(f"{cls.where}: pairwise resolution loop not found in the resolver")
-    loops = [n for n in ast.walk(fn.node) if isinstance(n, ast.For)]
-    lp = loops[0]
-    if not (isinstance(lp.target, ast.Tuple) and len(lp.target.elts) == 2 and all(isinstance(e, ast.Name) for e in lp.target.elts)):
-        raise AnalysisError(f"{where(fn, lp)}: loop over index pairs not recognised")
-    i0, i1 = V("#i0"), V("#i1")
-    # the chain variable = what the function returns
     rets = [n for n in ast.walk(fn.node) if isinstance(n, ast.Return) and isinstance(n.value, ast.Name)]
     if not rets:
         raise AnalysisError(f"{fn.where}: returned chain not found")
     cname = rets[-1].value.id
-    chain = V(cname)
-    ex = Explorer(ctx, fn, env={lp.target.elts[0].id: i0, lp.target.elts[1].id: i1, cname: chain})
-    paths = ex.run(body=lp.body)
-    ck.add_paths(len(paths))
+    loops = [n for n in ast.walk(fn.node) if isinstance(n, ast.For)]
+    paths = explore(ck, fn, unroll=(1,))
     n = 0
+    judged_gen = False
     for pa in paths:
+        chain = None
+        for e in pa.events:
+            if e.kind == "assign" and isinstance(e.node, ast.Assign) and isinstance(e.node.targets[0], ast.Name) \
+                    and e.node.targets[0].id == cname and chain is None:
+                chain = e.term
+                ok = chain[0] == "app" and chain[1].endswith("SegmentChainer.chain") and chain[2] == self_attr("segmentChainer") \
+                    and dict(chain[3]).get("segments") == V(fn.call_params()[0].name)
+                ck.judge(ok, rule, short(fn) + ":chain", where(fn, e.node), "the list walked is the injected chainer's chain of all segments",
+                         found=T.show(chain)[:120], required="self.segmentChainer.chain(segments)")
+        if chain is None:
+            raise AnalysisError(f"{fn.where}: assignment of the chain variable `{cname}` not found")
         stores = [e for e in pa.events if e.kind == "setitem" and e.extra["base"] == chain]
-        w = where(fn, lp)
+        if not stores:
+            continue
+        w = where(fn, stores[0].node)
         if len(stores) != 2:
             ck.violation(rule, short(fn) + ":write-back", w, "results of a conflict pair are not written back to two slots",
                          found=f"{len(stores)} stores", required="chain[i0], chain[i1] = pair.resolveConflict()")
             continue
         n += 1
-        by_idx = {e.extra["index"]: e.term for e in stores}
-        v0, v1 = by_idx.get(i0), by_idx.get(i1)
-        if v0 is None or v1 is None:
-            ck.violation(rule, short(fn) + ":write-back", w, "results are stored at other indices than the pair's own",
-                         found=str([T.show(k) for k in by_idx]), required="indices i0 and i1")
+        (e0, e1) = stores
+        v0, v1 = e0.term, e1.term
+        ok_vals = v0[0] == "idx" and v1[0] == "idx" and v0[1] == v1[1] and {v0[2], v1[2]} == {C(0), C(1)}
+        if not ok_vals:
+            raise AnalysisError(f"{w}: values written back are not the two components of one result: {T.show(v0)[:80]} / {T.show(v1)[:80]}")
+        left_store, right_store = (e0, e1) if v0[2] == C(0) else (e1, e0)
+        i0, i1 = left_store.extra["index"], right_store.extra["index"]
+        res = v0[1]
+        is_res = (res[0] == "mcall" and res[2] == "resolveConflict") or (res[0] == "app" and res[1].endswith(".resolveConflict"))
+        if not is_res:
+            raise AnalysisError(f"{w}: written values do not come from resolveConflict(): {T.show(res)[:120]}")
+        pair = res[1] if res[0] == "mcall" else res[2]
+        want_pair_shape = pair[0] == "app" and pair[1].endswith(".checkForConflicts")
+        if not want_pair_shape:
+            ck.violation(rule, short(fn) + ":pair", w,
+                         "the conflict pair resolved in a step is not built from the chain's current contents in that step (a pair "
+                         "computed earlier still holds the un-trimmed neighbour, so a trim made by the previous step is lost)",
+                         found=T.show(pair)[:240], required="chain[i0].checkForConflicts(chain[i1]) evaluated inside the step")
             continue
-        res = v0[1] if v0[0] == "idx" else None
-        ok = v0[0] == "idx" and v1[0] == "idx" and v0[1] == v1[1] and v0[2] == C(0) and v1[2] == C(1)
-        ck.judge(ok, rule, short(fn) + ":write-back", w,
-                 "left result goes back to slot i0, right result to slot i1",
-                 found=f"chain[i0] = {T.show(v0)[-40:]}, chain[i1] = {T.show(v1)[-40:]}",
-                 required="chain[i0], chain[i1] = result[0], result[1]")
-        if res is not None:
-            is_res = (res[0] == "mcall" and res[2] == "resolveConflict") or (res[0] == "app" and res[1].endswith(".resolveConflict"))
-            pair = (res[1] if res[0] == "mcall" else res[2]) if is_res else None
-            pair_ok = pair is not None and pair[0] == "app" and pair[1].endswith(".checkForConflicts") and \
-                pair[2] == T.mk_idx(chain, i0) and list(dict(pair[3]).values()) == [T.mk_idx(chain, i1)]
-            ck.judge(bool(pair_ok), rule, short(fn) + ":pair", w,
-                     "the conflict pair is (chain[i0] as left, chain[i1] as right)", found=T.show(pair)[:160] if pair else T.show(res)[:160],
-                     required="chain[i0].checkForConflicts(chain[i1])")
+        left, right = pair[2], list(dict(pair[3]).values())[0]
+        ck.judge(left == T.mk_idx(chain, i0) and right == T.mk_idx(chain, i1), rule, short(fn) + ":pair", w,
+                 "the conflict pair is (chain[i0] as left, chain[i1] as right) and the left/right results go back to slots i0/i1",
+                 found=f"pair({T.show(left)[-60:]}, {T.show(right)[-60:]}) -> left result to [{T.show(i0)[-40:]}], right result to "
+                       f"[{T.show(i1)[-40:]}]", required="chain[i0], chain[i1] = chain[i0].checkForConflicts(chain[i1]).resolveConflict()")
+        # index generator
+        if not judged_gen:
+            gens = [x for x in T.subterms(i0) if x[0] == "app"]
+            if not gens:
+                raise AnalysisError(f"{w}: index pairs are not produced by a repository function: {T.show(i0)[:120]}")
+            g = gens[0]
+            gen_fn = p.get_function(g[1])
+            length = list(dict(g[3]).values())[0] if g[3] else None
+            ck.judge(length == T.mk_call("len", [chain]), rule, short(fn) + ":length", w, "index pairs are generated for the whole chain",
+                     found=T.show(length)[:80] if length else "None", required="len(chain)")
+            it_elem = [x for x in T.subterms(i0) if x[0] == "elem"]
+            direct = i0 == T.mk_idx(it_elem[0], C(0)) and i1 == T.mk_idx(it_elem[0], C(1)) if it_elem else False
+            if not direct:
+                ck.observe(f"{w}: index pair reaches the step through {T.show(i0)[:80]}")
+            n_param = V(gen_fn.call_params()[0].name)
+            verdict, found = _pair_generator(ck, gen_fn, n_param)
+            if verdict is None:
+                raise AnalysisError(f"{gen_fn.where}: consecutive-pair generator idiom not recognised: {found}")
+            ck.judge(verdict, rule, short(gen_fn), gen_fn.where, "index generator yields (i, i+1) for every 0 <= i < n-1",
+                     found=found, required="{(i, i+1) | 0 <= i < n-1}")
+            judged_gen = True
     ck.floor(f"{rule} write-back paths", n, 1)
-    # the chain is the chainer's result
-    for pa in explore(ck, fn, unroll=(0,)):
-        for e in pa.events:
-            if e.kind == "assign" and isinstance(e.node, ast.Assign) and isinstance(e.node.targets[0], ast.Name) \
-                    and e.node.targets[0].id == cname:
-                ok = e.term[0] == "app" and e.term[1].endswith("SegmentChainer.chain") and e.term[2] == self_attr("segmentChainer")
-                ck.judge(ok, rule, short(fn) + ":chain", where(fn, e.node), "the list walked is the injected chainer's chain",
-                         found=T.show(e.term)[:120], required="self.segmentChainer.chain(segments)")
-    # index generator
-    it = lp.iter
-    gen_fn = None
-    length_arg = None
-    if isinstance(it, ast.Call):
-        cs = [c for c in ctx.cg.resolve_call(fn, it) if c.kind == "fn"]
-        if cs:
-            gen_fn = cs[0].fn
-            length_arg = it.args[0] if it.args else None
-    w = where(fn, lp)
-    if gen_fn is None:
-        _judge_index_expr(ck, rule, fn, lp, ctx, chain)
-        return
-    ok_len = length_arg is not None and ast.unparse(length_arg) == f"len({cname})"
-    ck.judge(ok_len, rule, short(fn) + ":length", w, "index pairs are generated for the whole chain",
-             found=ast.unparse(length_arg) if length_arg is not None else "None", required=f"len({cname})")
-    n_param = V(gen_fn.call_params()[0].name)
-    verdict, found = _pair_generator(ck, gen_fn, n_param)
-    if verdict is None:
-        raise AnalysisError(f"{gen_fn.where}: consecutive-pair generator idiom not recognised: {found}")
-    ck.judge(verdict, rule, short(gen_fn), gen_fn.where, "index generator yields (i, i+1) for every 0 <= i < n-1",
-             found=found, required="{(i, i+1) | 0 <= i < n-1}")
 
 
 def _judge_index_expr(ck, rule, fn, lp, ctx, chain):
